@@ -75,6 +75,10 @@ pub trait Sut {
     fn oracle(&self, pre: &[u8], op: &Op, out: &OpOut, post: &[u8]) -> Vec<Finding>;
     /// label(s) describing which interesting branch this transition exercised (coverage histogram)
     fn classify(&self, pre: &[u8], op: &Op, out: &OpOut, post: &[u8]) -> Vec<&'static str>;
+    /// byte offset (mod 16) the buffer must start at (alignment of what follows an odd-sized prefix)
+    fn skew(&self) -> usize {
+        0
+    }
     /// is this state non-trivial (for the evidence count)?
     fn nontrivial(&self, state: &[u8]) -> bool;
 }
@@ -144,13 +148,13 @@ fn transition(
     salt: usize,
     findings: &mut Vec<Finding>,
 ) -> (OpOut, Vec<u8>) {
-    let mut a = ABuf::new(pre, salt % 3, 0xA5);
+    let mut a = ABuf::new_skewed(pre, salt % 3, 0xA5, sut.skew());
     let out_a = sut.apply(&mut a, op);
     let post_a = a.bytes().to_vec();
     if !a.guards_ok() {
         findings.push(Finding { property: "C05", what: format!("bytes outside the buffer modified by `{}`", op.text()) });
     }
-    let mut b = ABuf::new(pre, (salt + 1) % 3 + 1, 0x3C);
+    let mut b = ABuf::new_skewed(pre, (salt + 1) % 3 + 1, 0x3C, sut.skew());
     let out_b = sut.apply(&mut b, op);
     let post_b = b.bytes().to_vec();
     if !b.guards_ok() {
